@@ -21,6 +21,17 @@ def run(chk, tier):
         spec_codec.check(chk, lib, ("get", "get_value"))
         if std == "c++20":
             spec_codec.check_constexpr(chk, lib)
+    # set choices are getters too: the mask of every choice is computed in the set's own width (R-INT shift rule) and
+    # selects exactly the choice's bit (mask rows); a 64-bit set whose mask is built in 32 bits decodes choices >= 32 wrongly
+    import rint
+    import schemas
+    import spec_set
+    from props._lib import is_lib_or_gen
+    root, _ = schemas.generate_all()
+    lib = lib_for("vprims_le", "c++17")
+    rint.RInt(chk, lib.facts, lib.label, ("S4",)).run(
+        lambda f: is_lib_or_gen(f, root) and (f.get("cls_tpl") == "sbepp::detail::bitset_base"))
+    spec_set.check(chk, lib, root)
     # cursor getters decode too: width, byte order and offsets of the cursor primitive each generated accessor forwards to
     e4.check(chk, ("accessors", "cursor"), tier)
     chk.floor("CODEC.get instantiations", chk.rule_counts.get("CODEC.get", 0), 60)
@@ -31,5 +42,5 @@ def run(chk, tier):
                      "compared with the SBE table, not with the encoder. get_value<T,U,E>: READ width sizeof(U) under a "
                      "SIZE_CHECK of the same U at the same offset. C++20: accessors are constexpr and reach no "
                      "non-constexpr callee. E4: per generated getter of the corpus sizeof(U) = XML primitive size, byte "
-                     "order = schema byteOrder, offset = model. Value equality on concrete images is not decided."),
+                     "order = schema byteOrder, offset = model. Set choices: shift rule and mask rows of bitset_base for the four widths. Value equality on concrete images is not decided."),
         rule_text="instances = codec instantiations x build path, generated getters of the corpus")
